@@ -7,7 +7,7 @@ From FlacWriters Require Import Params_proofs.
 From FlacReaders Require Readers Spec Ser RNum Seek.
 From FlacWriters Require Import Lists_proofs Writers_proofs.
 From FlacWriters Require Import Bytes_proofs Cross_proofs.
-From FlacE2E Require Import Bridge E2E SampleE2E Success ChannelE2E ByteE2E ByteSuccess ChannelSuccess ReadBridge ReadersE2E InterruptedE2E SeekE2E SeekReadE2E Transfer DecodedFile DamagedFile InterruptedBytes InterruptedChannels.
+From FlacE2E Require Import Bridge E2E SampleE2E Success ChannelE2E ByteE2E ByteSuccess ChannelSuccess ReadBridge ReadersE2E InterruptedE2E SeekE2E SeekReadE2E Transfer DecodedFile DamagedFile InterruptedBytes InterruptedChannels OutputBound.
 Import ListNotations.
 Open Scope N_scope.
 
@@ -611,6 +611,14 @@ Theorem C14_channel_writer_interrupted : forall o L p rate bps wo ch tc wc chunk
       end.
 Proof. exact channel_writer_interrupted. Qed.
 
+(* C04, the size half for whole streams: whatever the bytes and however decoding ends, every decoded frame holds at most
+   8 x 65535 samples and consumed at least two bytes of input, so the output is paid for by input *)
+Theorem C04_stream_output_bounded : forall file si frames en,
+  FlacCodec.Stream.dec_stream file = Some (si, frames, en) ->
+  1 <= FlacCodec.Ast.si_channels si -> FlacCodec.Ast.si_channels si <= 8 ->
+  2 * N.of_nat (length (concat frames)) <= 524280 * N.of_nat (length file).
+Proof. exact stream_output_bounded. Qed.
+
 (* C05 + C07 for damaged files — EVERY byte string on which the stream decoder model decodes some frames and then fails
    (any error): over the abstract stream "the blocks decoded so far, then a frame that fails" (whatever the failed decode
    left in the frame buffer, whatever follows), what ANY seek-free history of the sample reader model hands out or shows
@@ -732,6 +740,7 @@ Print Assumptions C01_written_metadata_is_read.
 Print Assumptions C01_end_to_end_samples.
 Print Assumptions C14_byte_writer_interrupted.
 Print Assumptions C14_channel_writer_interrupted.
+Print Assumptions C04_stream_output_bounded.
 Print Assumptions C05_damaged_file_is_read.
 Print Assumptions C05_damaged_file_is_read_bytes_channels.
 Print Assumptions C01_end_to_end_encoder.
